@@ -398,6 +398,14 @@ theorem callPreOf_rename {g1 g2 : Grammar} (h : Sim g1 g2 ρ D) {e : Nat} (he : 
   rw [h1, h2]
   exact (NRel.of_eq hn).callPre.symm
 
+theorem optDefault_rename {g1 g2 : Grammar} (h : Sim g1 g2 ρ D) {e : Nat} (he : D e) (d : Option (List Char)) :
+    optDefault g1 e d = optDefault g2 (ρ e) d := by
+  obtain ⟨n1, n2, h1, h2, hn⟩ := h.node e he
+  unfold optDefault
+  cases d with
+  | none => rfl
+  | some v => simp only [h1, h2, (NRel.of_eq hn).acts]
+
 theorem parseImpl_rename {g1 g2 : Grammar} (h : Sim g1 g2 ρ D) (hA : Agree p q ρ D) {n1 n2 : Node}
     (R : NRel n1 n2 ρ) (hch : ∀ c ∈ n1.children, D c)
     (hnl : ∀ es, n1.kind = .or es → ∀ e ∈ es, nameLenOf g1 e = nameLenOf g2 (ρ e))
@@ -415,7 +423,7 @@ theorem parseImpl_rename {g1 g2 : Grammar} (h : Sim g1 g2 ρ D) (hA : Agree p q 
   case or es =>
     exact orImpl_rename hA g1 g2 R hign s acts es hkid (hnl es hk)
       (fun e he => callPreOf_rename h (hkid e he)) loc
-  case opt e dflt => rw [hA e (hkid e (by simp))]
+  case opt e dflt => rw [hA e (hkid e (by simp)), optDefault_rename h (hkid e (by simp))]
   case many e ne one =>
     have he : D e := hkid e (by simp)
     have hne : ∀ x, ne = some x → D x := fun x hx => hkid x (by simp [hx])
